@@ -529,8 +529,7 @@ func (v *vc) alloc(st *state, hint string) string {
 
 func (v *vc) elemRef(st *state, arr, idx string) string {
 	e := v.define("elem", "Int", fmt.Sprintf("(elem %s %s)", arr, idx))
-	v.rawFact(fmt.Sprintf("(and (= (elem_arr %s) %s) (= (elem_idx %s) %s) (> %s 0))", e, arr, e, idx, e))
-	return e
+	return e // elem is an interpreted injective pairing (prelude): no facts needed
 }
 
 // ---------- state merge ----------
